@@ -90,6 +90,8 @@ pub struct CfgProfile {
     pub max_vamms: usize,
     pub fees: bool,
     pub fluct: bool,
+    /// every vAMM gets a non-zero fluctuation limit
+    pub fluct_always: bool,
     pub caps: bool,
     pub partial: bool,
     /// None = generate both oracle flavours (1 in 4 uses the repository's own price feed)
@@ -108,6 +110,7 @@ impl CfgProfile {
             max_vamms: 2,
             fees: true,
             fluct: true,
+            fluct_always: false,
             caps: false,
             partial: true,
             real_feed: Some(false),
@@ -131,7 +134,9 @@ pub fn vamm_cfg_strategy(d: u128, p: &CfgProfile) -> BoxedStrategy<VammCfg> {
     } else {
         vec![0]
     };
-    let fluct_tab: Vec<u128> = if p.fluct {
+    let fluct_tab: Vec<u128> = if p.fluct_always {
+        vec![d / 20, d / 100, d / 8, d * 3 / 10, d / 50, d / 1000]
+    } else if p.fluct {
         vec![0, 0, 0, 0, 0, d / 20, d / 100, d / 8, d * 3 / 10]
     } else {
         vec![0]
